@@ -335,6 +335,17 @@ def harnesses(tier):
         for f1 in plain:
             hs.append({"name": "string/2/%s%d%s%s+%s%d" % (f0[0], len(f0[1]), f0[2], f0[3], f1[0], len(f1[1])), "fn": "h_string",
                        "params": {"funcs": [f0, f1]}})
+    # lengths with units anywhere in the list: before and after a function they do not commute with, and next to each other
+    allv = _func_variants("thorough", 0)
+    unitf = [f for f in allv if f[3] in ("in", "pt", "pc") and f[0] in ("translate", "translatex", "translatey") and (tier == "thorough" or (f[0], f[3], len(f[1])) in
+             (("translate", "in", 1), ("translate", "pt", 2), ("translatex", "pc", 1), ("translatey", "in", 1)))]
+    partners = [f for f in plain if (f[0], len(f[1])) in (("matrix", 6), ("rotate", 3), ("translate", 2), ("scale", 2), ("skewx", 1))]
+    for u in unitf:
+        for q in partners:
+            hs.append({"name": "string/units/%s%d%s+%s%d" % (u[0], len(u[1]), u[3], q[0], len(q[1])), "fn": "h_string", "params": {"funcs": [u, q]}})
+            hs.append({"name": "string/units/%s%d+%s%d%s" % (q[0], len(q[1]), u[0], len(u[1]), u[3]), "fn": "h_string", "params": {"funcs": [q, u]}})
+        u2 = unitf[(unitf.index(u) + 1) % len(unitf)]
+        hs.append({"name": "string/units/%s%d%s+%s%d%s" % (u[0], len(u[1]), u[3], u2[0], len(u2[1]), u2[3]), "fn": "h_string", "params": {"funcs": [u, u2]}})
     if tier == "thorough":
         for f0 in plain:
             for f1 in plain:
